@@ -80,6 +80,13 @@ def evaluate(case):
         fails.append(f"lorch transform differs from plain transform of pre-multiplied data by {relerr(v0, vp, scale=sc):.3g}")
     if dy is not None and relerr(e0, ep, scale=float(np.abs(dy).max()) * float(hi - x.min()) + 1e-300) > 1e-9:
         fails.append("lorch uncertainty differs from plain uncertainty of pre-multiplied input uncertainty")
+    # "with the Lorch option": the option switched on by the result of a comparison (a numpy.bool_) or by 1 is the option switched on
+    for flag in (np.bool_(True), np.float64(x.max()) < np.inf, 1):
+        _, vb, eb = t.fourier_transform(x, y, xo, xmax=xmax, dy_in=dy, lorch=flag)
+        if not (np.array_equal(vb, v0, equal_nan=True) and np.array_equal(eb, e0, equal_nan=True)):
+            fails.append(f"fourier_transform(lorch={flag!r} of type {type(flag).__name__}): the option is "
+                         + ("silently ignored (plain transform returned)" if np.array_equal(vb, t.fourier_transform(x, y, xo, xmax=xmax, dy_in=dy)[1]) else "treated differently from lorch=True"))
+            break
     # "for all data": integer-typed data (counts) are damped like the same numbers stored as floats
     yi = np.rint(y * 3)
     try:
